@@ -213,6 +213,9 @@ pub fn run(args: &Args) -> i32 {
     for _ in 0..args.tier.pick(4, 16) {
         scenario_commit_fault(&mut rng, &mut r);
     }
+    for _ in 0..args.tier.pick(8, 40) {
+        scenario_side_block_while_tip_moves(&mut rng, &mut r);
+    }
     let hits = hooks::hits();
     for (k, v) in &hits {
         r.c01.count_n(&format!("hook.{k}"), *v);
@@ -1509,6 +1512,93 @@ fn scenario_commit_fault(rng: &mut Rng, r: &mut Reports) {
     for p in hooks::take_panics() {
         r.c01.violation(&format!("node_thread_panicked@{}:{}", p.thread, p.message.chars().take(60).collect::<String>()), format!("{} at {} (commit-fault scenario)", p.message, p.location), wit(json!({})));
     }
+}
+
+/// Directed scenario (C20, C01, C02): a side block (sibling of the tip) and the next main-chain
+/// block arrive back to back while every snapshot refresh is stretched (seeded delay at hook H4b
+/// between the load and the store inside `refresh_snapshot`). Whoever refreshes the snapshot
+/// must not overwrite a tip published meanwhile: at quiescence the published snapshot has to be
+/// at the stored tip, with that tip's proposal view.
+fn scenario_side_block_while_tip_moves(rng: &mut Rng, r: &mut Reports) {
+    let mut params = ChainParams::default();
+    params.epoch = EpochMode::Permanent { genesis_len: 100, epoch_len: 100 };
+    let gi = consensus::build(&params);
+    let cfg = TreeCfg { n_blocks: 0, invalid: 0, max_new_txs: 2, junk_proposals: 2, uncle_pm: 0, fork_pm: 0, ..Default::default() };
+    let mut tg = TreeGen::new(&gi, cfg, rng.next_u64());
+    let mut tip = tg.rc.genesis;
+    let mut prefix: Vec<H> = vec![];
+    for _ in 0..(5 + rng.usize_below(4)) {
+        tip = tg.extend(&tip);
+        prefix.push(tip);
+    }
+    // depth first: the side block X (sibling of the last prefix block) first, then the main chain
+    let parent_of_last = tg.rc.get(&tip).parent;
+    let last = tip;
+    let x = tg.extend(&parent_of_last);
+    // back to the main chain: re-walk is not possible for the builder (depth first), so the main
+    // chain continues from a fresh sibling of X: X2 = new last block, then next
+    let last2 = tg.extend(&parent_of_last);
+    let next = tg.extend(&last2);
+    let _ = last;
+    let rc = &tg.rc;
+    let node = Node::boot(&gi, &NodeCfg::default());
+    // everything up to the parent, then the tip `last2` (the first-seen block of its height)
+    for b in prefix[..prefix.len() - 1].iter().chain(std::iter::once(&last2)) {
+        if !matches!(node.chain().blocking_process_block(Arc::clone(&rc.get(b).block)), Ok(true)) {
+            r.c01.inconclusive("harness: snapshot-writers scenario could not deliver its preparation blocks");
+            return;
+        }
+    }
+    let ms = 2 + rng.below(9);
+    {
+        let mut points = std::collections::BTreeMap::new();
+        points.insert("shared::refresh_snapshot_before_store", (2000u64, ms * 1000));
+        hooks::set_plan(hooks::DelayPlan { points, seed: rng.next_u64() });
+    }
+    let answered = Arc::new(std::sync::atomic::AtomicUsize::new(0));
+    let order: Vec<H> = if rng.bool() { vec![next, x] } else { vec![x, next] };
+    for b in &order {
+        let a = Arc::clone(&answered);
+        node.chain().asynchronous_process_remote_block(ckb_chain::RemoteBlock {
+            block: Arc::clone(&rc.get(b).block),
+            verify_callback: Box::new(move |_| {
+                a.fetch_add(1, Ordering::SeqCst);
+            }),
+        });
+        if rng.bool() {
+            std::thread::sleep(Duration::from_micros(rng.below(1_500)));
+        }
+    }
+    let t0 = Instant::now();
+    while answered.load(Ordering::SeqCst) < 2 && t0.elapsed() < Duration::from_secs(30) {
+        std::thread::sleep(Duration::from_millis(1));
+    }
+    // let a refresh that is still asleep finish
+    std::thread::sleep(Duration::from_millis(2 * ms + 5));
+    hooks::set_plan(hooks::DelayPlan::default());
+    if answered.load(Ordering::SeqCst) < 2 {
+        r.c01.inconclusive("watchdog: snapshot-writers scenario: a block was not answered in 30 s");
+        return;
+    }
+    r.c20.count("scenario.side_block_while_tip_moves_runs");
+    use ckb_store::ChainStore;
+    let stored_tip = node.shared.store().get_tip_header().map(|hd| h(&hd.hash()));
+    let snap = node.shared.snapshot();
+    let t = h(&snap.tip_hash());
+    r.c01.eval();
+    let wit = json!({"order": order.iter().map(|b| format!("{}#{}", hx(b), rc.get(b).number)).collect::<Vec<_>>(), "refresh_delay_ms": ms});
+    if stored_tip != Some(next) {
+        r.c01.violation("snapshot_writers.stored_tip_differs", format!("stored tip {:?} expected {}", stored_tip.map(|x| hx(&x)), hx(&next)), wit.clone());
+        return;
+    }
+    if t != next {
+        r.c02.violation("snapshot.published_tip_behind_stored_tip@quiescent", format!("published snapshot is at {}#{} while the stored tip is {}#{} and nothing is in flight", hx(&t), rc.get(&t).number, hx(&next), rc.get(&next).number), wit.clone());
+        r.c20.violation("proposal_view.snapshot_behind_stored_tip@quiescent", format!("the published proposal view belongs to {}#{}, the stored tip is {}#{}", hx(&t), rc.get(&t).number, hx(&next), rc.get(&next).number), wit);
+        return;
+    }
+    check_view(rc, &t, snap.proposals().set(), snap.proposals().gap(), "after_a_side_block_raced_with_the_next_tip", r);
+    let d = dump::dump(node.shared.store());
+    compare_and_report(&d, rc, "after_a_side_block_raced_with_the_next_tip", r, true);
 }
 
 fn deliver_fixed(tg: &TreeGen, gi: &GenesisInfo, order: Vec<H>, rng: &mut Rng, shape: u64, r: &mut Reports) {
